@@ -752,6 +752,8 @@ pub fn run(opts: &Opts, only: Option<Class>) -> i32 {
         "zones_per_hour": (zones as f64 / wall * 3600.0) as u64,
         "real_components": ["tz_info reader and both lookups (accessor route)", "Local, TimeZone trait glue, unix.rs cache and zone selection, std read_to_end (public route)", "OS thread per zone history"],
         "stubbed_components": ["TZ, clock, file system (simulated world)"],
+        "fault_kinds_injected": {},
+        "fault_configuration": "fault-free by design (C05 has no fault or schedule dimension); the simulated world supplies the zone and the cache-reload history: 0-2 decoy zones, each followed by SetTZ and a wait of 1-6 simulated seconds",
         "reference_model": "model.rs: days-from-civil with floor division, rule transitions enumerated for y-1..y+1, wall-clock answer = pre-image of the instant lookup over the zone's distinct offsets",
     });
     write_evidence(
